@@ -117,7 +117,11 @@ func (u *Unit) sliceSort(elem string) string {
 	if !u.sortSeen[name] {
 		u.sortSeen[name] = true
 		id := sortId(elem)
-		u.sortDecl = append(u.sortDecl, fmt.Sprintf("(declare-datatypes ((%s 0)) (((mk_%s (sarr_%s (Array Int %s)) (slen_%s Int) (snil_%s Bool)))))", name, name, id, elem, id, id))
+		u.sortDecl = append(u.sortDecl, fmt.Sprintf("(declare-datatypes ((%s 0)) (((mk_%s (sarr_%s (Array Int %s)) (slen_%s Int) (snil_%s Bool)))))", name, name, id, elem, id, id),
+			// sub_E(b, lo, hi) = b[lo:hi] as a value (definitional)
+			fmt.Sprintf("(declare-fun sub_%s (%s Int Int) %s)", id, name, name),
+			fmt.Sprintf("(assert (forall ((b %s) (l Int) (h Int)) (! (and (= (slen_%s (sub_%s b l h)) (- h l)) (not (snil_%s (sub_%s b l h)))) :pattern ((sub_%s b l h)))))", name, id, id, id, id, id),
+			fmt.Sprintf("(assert (forall ((b %s) (l Int) (h Int) (j Int)) (! (= (select (sarr_%s (sub_%s b l h)) j) (select (sarr_%s b) (+ j l))) :pattern ((select (sarr_%s (sub_%s b l h)) j)))))", name, id, id, id, id, id))
 	}
 	return name
 }
@@ -137,11 +141,16 @@ func (u *Unit) fixedSort(n int64) string {
 			fmt.Sprintf("(declare-fun upd%d (%s Int Int) %s)", n, name, name),
 			fmt.Sprintf("(assert (forall ((a %s) (i Int) (v Int) (j Int)) (! (= (at%d (upd%d a i v) j) (ite (= i j) v (at%d a j))) :pattern ((at%d (upd%d a i v) j)))))", name, n, n, n, n, n),
 			fmt.Sprintf("(declare-fun diff%d (%s %s) Int)", n, name, name),
+			// eqN(a,b) is a = b, written as a predicate so that extensionality has a trigger
+			fmt.Sprintf("(declare-fun eq%d (%s %s) Bool)", n, name, name),
+			fmt.Sprintf("(assert (forall ((a %s) (b %s)) (! (= (eq%d a b) (= a b)) :pattern ((eq%d a b)))))", name, name, n, n),
+			fmt.Sprintf("(assert (forall ((a %s) (b %s)) (! (or (eq%d a b) (and (<= 0 (diff%d a b)) (< (diff%d a b) %d) (not (= (at%d a (diff%d a b)) (at%d b (diff%d a b)))))) :pattern ((eq%d a b)))))", name, name, n, n, n, n, n, n, n, n, n),
 			fmt.Sprintf("(declare-fun bytes%d (%s) %s)", n, name, bs),
 			fmt.Sprintf("(assert (forall ((a %s)) (! (and (= (slen_Int (bytes%d a)) %d) (not (snil_Int (bytes%d a)))) :pattern ((bytes%d a)))))", name, n, n, n, n),
 			fmt.Sprintf("(assert (forall ((a %s) (i Int)) (! (=> (and (<= 0 i) (< i %d)) (= (select (sarr_Int (bytes%d a)) i) (at%d a i))) :pattern ((select (sarr_Int (bytes%d a)) i)))))", name, n, n, n, n),
 			fmt.Sprintf("(declare-fun from%d (%s) %s)", n, bs, name),
 			fmt.Sprintf("(assert (forall ((b %s) (i Int)) (! (=> (and (<= 0 i) (< i %d)) (= (at%d (from%d b) i) (select (sarr_Int b) i))) :pattern ((at%d (from%d b) i)))))", bs, n, n, n, n, n),
+			fmt.Sprintf("(assert (forall ((a %s)) (! (= (from%d (bytes%d a)) a) :pattern ((bytes%d a)))))", name, n, n, n),
 			fmt.Sprintf("(declare-const zero%d %s)", n, name),
 			fmt.Sprintf("(assert (forall ((i Int)) (! (= (at%d zero%d i) 0) :pattern ((at%d zero%d i)))))", n, n, n, n),
 		}
